@@ -209,10 +209,12 @@ type world struct {
 	sizeChanges int
 	sizeShrinks int
 	// index resets (reset_test.go)
-	resetNoPut     bool // nothing was appended since the last SetAppendedSeq
-	resetUnwritten bool // ... and that reset went to a sequence whose index entry was never written
-	cursorRewound  bool // a reopen recomputed the write cursor from such an entry (data page 0, offset 0)
-	indexJumps     int  // resets that moved the append position into another index page
+	resetNoPut     bool  // nothing was appended since the last SetAppendedSeq
+	resetUnwritten bool  // ... and that reset went to a sequence whose index entry was never written
+	cursorRewound  bool  // a reopen recomputed the write cursor from such an entry (data page 0, offset 0)
+	indexJumps     int   // resets that moved the append position into another index page
+	maxEver        int64 // highest sequence an earlier life of the log (before a reset) reached: index entries up to it may be stale
+	collectedIndex int64 // GC ran with the acknowledged position in this index page: lower index pages are gone
 }
 
 func (w *world) logf(format string, args ...any) { w.ops = append(w.ops, fmt.Sprintf(format, args...)) }
@@ -622,6 +624,7 @@ func (w *world) opAck() {
 func (w *world) opGC() {
 	w.logf("gc")
 	w.q.GC()
+	w.noteGC()
 	w.noteHeld("gc")
 }
 
@@ -830,7 +833,7 @@ func newWorld(t *rapid.T, prefix string) (*world, func()) {
 		t.Fatalf("harness: %v", err)
 	}
 	w := &world{t: t, dir: filepath.Join(dir, "q"), byID: map[uint64]msg{}, assigned: map[int64]uint64{}, classes: map[string]int{}, lastSize: -1,
-		heldEvents: map[string]bool{}, pageOf: map[int64]int64{}}
+		heldEvents: map[string]bool{}, pageOf: map[int64]int64{}, maxEver: -1}
 	installSeams(w)
 	return w, func() {
 		uninstallSeams()
@@ -868,29 +871,30 @@ func runHistory(t *rapid.T, thorough bool) {
 		}
 	}
 	t.Repeat(map[string]func(*rapid.T){
-		"put":             func(t *rapid.T) { w.t = t; w.opPut() },
-		"put2":            func(t *rapid.T) { w.t = t; w.opPut() },
-		"putTooBig":       func(t *rapid.T) { w.t = t; w.opPutTooBig() },
-		"fill":            func(t *rapid.T) { w.t = t; w.opFill() },
-		"overlappingPut":  func(t *rapid.T) { w.t = t; w.opOverlappingPut() },
-		"crashPut":        func(t *rapid.T) { w.t = t; w.opCrashPut(thorough) },
-		"crashPut2":       func(t *rapid.T) { w.t = t; w.opCrashPut(thorough) },
-		"reopen":          func(t *rapid.T) { w.t = t; w.opReopen() },
-		"faultyPut":       func(t *rapid.T) { w.t = t; w.opFaultyPut() },
-		"reopenFaulty":    func(t *rapid.T) { w.t = t; w.opReopenFaulty() },
-		"ack":             func(t *rapid.T) { w.t = t; w.opAck() },
-		"gc":              func(t *rapid.T) { w.t = t; w.opGC() },
-		"gcInterleaved":   func(t *rapid.T) { w.t = t; w.opGCInterleaved() },
-		"gcInterleaved2":  func(t *rapid.T) { w.t = t; w.opGCInterleaved() },
-		"getAndHold":      func(t *rapid.T) { w.t = t; w.opGetAndHold() },
-		"getAndHold2":     func(t *rapid.T) { w.t = t; w.opGetAndHold() },
-		"getAndHold3":     func(t *rapid.T) { w.t = t; w.opGetAndHold() },
-		"release":         func(t *rapid.T) { w.t = t; w.opRelease() },
-		"ackBelowHeld":    func(t *rapid.T) { w.t = t; w.opAckBelowHeld() },
-		"reset":           func(t *rapid.T) { w.t = t; w.opReset() },
-		"resetDuringPut":  func(t *rapid.T) { w.t = t; w.opResetDuringPut() },
-		"resetDuringPut2": func(t *rapid.T) { w.t = t; w.opResetDuringPut() },
-		"":                func(t *rapid.T) { w.t = t; w.check("after step") },
+		"put":                      func(t *rapid.T) { w.t = t; w.opPut() },
+		"put2":                     func(t *rapid.T) { w.t = t; w.opPut() },
+		"putTooBig":                func(t *rapid.T) { w.t = t; w.opPutTooBig() },
+		"fill":                     func(t *rapid.T) { w.t = t; w.opFill() },
+		"overlappingPut":           func(t *rapid.T) { w.t = t; w.opOverlappingPut() },
+		"crashPut":                 func(t *rapid.T) { w.t = t; w.opCrashPut(thorough) },
+		"crashPut2":                func(t *rapid.T) { w.t = t; w.opCrashPut(thorough) },
+		"reopen":                   func(t *rapid.T) { w.t = t; w.opReopen() },
+		"faultyPut":                func(t *rapid.T) { w.t = t; w.opFaultyPut() },
+		"reopenFaulty":             func(t *rapid.T) { w.t = t; w.opReopenFaulty() },
+		"ack":                      func(t *rapid.T) { w.t = t; w.opAck() },
+		"gc":                       func(t *rapid.T) { w.t = t; w.opGC() },
+		"gcInterleaved":            func(t *rapid.T) { w.t = t; w.opGCInterleaved() },
+		"gcInterleaved2":           func(t *rapid.T) { w.t = t; w.opGCInterleaved() },
+		"getAndHold":               func(t *rapid.T) { w.t = t; w.opGetAndHold() },
+		"getAndHold2":              func(t *rapid.T) { w.t = t; w.opGetAndHold() },
+		"getAndHold3":              func(t *rapid.T) { w.t = t; w.opGetAndHold() },
+		"release":                  func(t *rapid.T) { w.t = t; w.opRelease() },
+		"ackBelowHeld":             func(t *rapid.T) { w.t = t; w.opAckBelowHeld() },
+		"reset":                    func(t *rapid.T) { w.t = t; w.opReset() },
+		"resetDuringPut":           func(t *rapid.T) { w.t = t; w.opResetDuringPut() },
+		"resetDuringPut2":          func(t *rapid.T) { w.t = t; w.opResetDuringPut() },
+		"resetBackAcrossIndexPage": func(t *rapid.T) { w.t = t; w.opResetBackAcrossIndexPage() },
+		"":                         func(t *rapid.T) { w.t = t; w.check("after step") },
 	})
 	w.t = t
 	// closing sequence: reopen and append once more, everything must still be intact
